@@ -195,6 +195,15 @@ impl C17 {
             }
             params.push(rel);
         }
+        // files whose names merely CONTAIN a supported extension are not parameter files; their
+        // content would clash with the data if they were merged
+        if r.chance(1, 4) {
+            let clash = doc::render(&parts[0], DocFmt::JsonPretty).into_bytes();
+            files.push(FileSpec { rel: "params/p1.json.bak".into(), bytes: clash.clone(), mtime_ns: 0 });
+            files.push(FileSpec { rel: "params/extra.yaml.disabled".into(), bytes: clash, mtime_ns: 0 });
+            rep.count("gen.near_miss_extensions", 1);
+        }
+        files.push(FileSpec { rel: "plink -> params".into(), bytes: vec![], mtime_ns: 0 });
         for (i, f) in files.iter_mut().enumerate() {
             f.mtime_ns = (1_650_000_000 + 17 * i as i64) * 1_000_000_000;
         }
@@ -219,7 +228,9 @@ impl C17 {
         let mut out = Vec::new();
         for _ in 0..k {
             let structured = r.chance(1, 2);
-            let tail = if structured { sv(&["--structured", "-o", "json", "-S", "none"]) } else { sv(&["-o", "json", "-S", "none"]) };
+            // structured: json (verdicts compared) or another format (exit code compared)
+            let sfmt = *r.pick(&["json", "json", "json", "yaml", "junit", "sarif"]);
+            let tail = if structured { sv(&["--structured", "-o", sfmt, "-S", "none"]) } else { sv(&["-o", "json", "-S", "none"]) };
             let stdin_mode = r.chance(1, 6);
             let mut argv = sv(&["cfn-guard", "validate", "-r", "@/rules/r0.guard"]);
             if !stdin_mode {
@@ -250,7 +261,12 @@ impl C17 {
                     }
                 }
                 kind = format!("args-{}", if structured { "structured" } else { "plain" });
-                if r.chance(1, 8) {
+                if !stdin_mode && r.chance(1, 10) {
+                    // the data file itself named as a parameter file too: every key of it overlaps
+                    argv.push("-i".into());
+                    argv.push("@/data/d0.json".into());
+                    dup = true;
+                } else if r.chance(1, 8) {
                     // the same parameter file once more (only meaningful if it defines a key)
                     let i = r.usize(scn.params.len());
                     let nonempty = scn.files.iter().find(|f| f.rel == scn.params[i] || f.rel == format!("store/{}", scn.params[i].trim_start_matches("params/"))).map(|f| f.bytes.iter().any(|b| *b == b':')).unwrap_or(false);
@@ -263,7 +279,8 @@ impl C17 {
             } else {
                 let flag = *r.pick(&["", "-a", "-m", "-m"]);
                 argv.push("-i".into());
-                argv.push("@/params".into());
+                // (`plink` is a symbolic link to the directory)
+                argv.push(if r.chance(1, 5) { "@/plink".into() } else { "@/params".into() });
                 if !flag.is_empty() {
                     argv.push(flag.into());
                 }
@@ -349,6 +366,11 @@ impl C17 {
         let refv = &refv;
         if c != refc {
             return Some((format!("{}/exit", d.kind), format!("pre-merged document exits {refc}, `{}` exits {c}", d.argv.join(" ").replace("@/", ""))));
+        }
+        if structured && !d.argv.windows(2).any(|w| w[0] == "-o" && w[1] == "json") {
+            // yaml / junit / sarif: the exit code has been compared
+            rep.count("judged.exit_only_format", 1);
+            return None;
         }
         if got.is_none() || refv.is_none() {
             return Some((format!("{}/unparsable", d.kind), "output is not the expected JSON".into()));
